@@ -355,6 +355,18 @@ fn sighash_call(tx: &mut Transaction, st_: &Value) -> Result<Value, E> {
 fn history(req: &Value) -> R {
     let mut live = match hx_opt(req, "init")? {
         Some(b) => Transaction::from_bytes(&b).map_err(|e| drv(format!("init parse: {}", e)))?,
+        // start object decoded from a JSON document (or the same document re-encoded as CBOR)
+        None if req.get("init_json").is_some() => {
+            let text = st(req, "init_json")?;
+            if st_opt(req, "init_via") == Some("cbor") {
+                let v: serde_json::Value = serde_json::from_str(text).map_err(|e| drv(format!("init_json: {}", e)))?;
+                let mut buf = vec![];
+                ciborium::ser::into_writer(&v, &mut buf).map_err(|e| drv(format!("init cbor: {}", e)))?;
+                Transaction::from_compact_bytes(&buf).map_err(|e| drv(format!("init parse: {}", e)))?
+            } else {
+                Transaction::from_json_string(text).map_err(|e| drv(format!("init parse: {}", e)))?
+            }
+        }
         None => Transaction::new(un_opt(req, "version").unwrap_or(1) as u32, un_opt(req, "locktime").unwrap_or(0) as u32),
     };
     let probes: Vec<Value> = req.get("probes").and_then(|x| x.as_array()).cloned().unwrap_or_default();
@@ -475,16 +487,49 @@ pub fn apply_ext(tx: &mut Transaction, req: &Value) -> Result<(), E> {
 fn tx_codec(req: &Value) -> R {
     let mut tx = Transaction::from_bytes(&hx(req, "tx")?).map_err(|e| drv(format!("tx parse: {}", e)))?;
     apply_ext(&mut tx, req)?;
+    // scripts handed over as element lists (Script::from_script_bits), e.g. conditionals kept as FLAT opcodes
+    if let Some(m) = req.get("in_bits").and_then(|x| x.as_object()) {
+        for (k_, v) in m {
+            let i: usize = k_.parse().map_err(|_| drv("in_bits index"))?;
+            let mut inp = tx.get_input(i).ok_or_else(|| drv("in_bits index out of range"))?;
+            inp.set_unlocking_script(&Script::from_script_bits(crate::ops_script::bits_from_json(v)?));
+            tx.set_input(i, &inp);
+        }
+    }
+    if let Some(m) = req.get("out_bits").and_then(|x| x.as_object()) {
+        for (k_, v) in m {
+            let i: usize = k_.parse().map_err(|_| drv("out_bits index"))?;
+            let out = tx.get_output(i).ok_or_else(|| drv("out_bits index out of range"))?;
+            tx.set_output(i, &TxOut::new(out.get_satoshis(), &Script::from_script_bits(crate::ops_script::bits_from_json(v)?)));
+        }
+    }
+    let orig = tx.clone();
+    let bits_of = |t: &Transaction| -> Vec<Vec<ScriptBit>> {
+        let mut v = vec![];
+        for i in 0..t.get_ninputs() {
+            v.push(t.get_input(i).map(|x| x.get_unlocking_script().to_script_bits()).unwrap_or_default());
+        }
+        for i in 0..t.get_noutputs() {
+            v.push(t.get_output(i).map(|x| x.get_script_pub_key().to_script_bits()).unwrap_or_default());
+        }
+        v
+    };
+    let orig_bits = bits_of(&orig);
     let mut dreq = req.clone();
     dreq["totals"] = json!(false);
     let before = dump_tx(&mut tx, &dreq)?;
     let mut o = json!({ "before": before });
     let after = |r: Result<Transaction, BSVErrors>| -> Value {
         match r {
-            Ok(mut t) => match dump_tx(&mut t, &dreq) {
-                Ok(d) => json!({ "ok": d }),
-                Err(E::Lib(e)) => json!({ "err": format!("dump: {}", e) }),
-                Err(E::Drv(e)) => json!({ "drv_err": e }),
+            Ok(mut t) => match (t == orig, bits_of(&t) == orig_bits, dump_tx(&mut t, &dreq)) {
+                (eq, beq, Ok(mut d)) => {
+                    // `==` of the library's own PartialEq, and equality of every script's element list
+                    d["partial_eq"] = json!(eq);
+                    d["script_bits_eq"] = json!(beq);
+                    json!({ "ok": d })
+                }
+                (_, _, Err(E::Lib(e))) => json!({ "err": format!("dump: {}", e) }),
+                (_, _, Err(E::Drv(e))) => json!({ "drv_err": e }),
             },
             Err(e) => json!({ "err": e.to_string() }),
         }
